@@ -120,6 +120,124 @@ fn views_one(ctx: &mut Ctx, n: &Num) {
     }
 }
 
+/// the byte-level casts on a number written as JSON text: the literal goes through the text
+/// parser first (integers that fit stay exact, everything else is the nearest double), and the
+/// views must be those of that number
+fn text_casts(ctx: &mut Ctx, lit: &str) {
+    let info = || format!("JSON text {:?}", lit);
+    let n = match crate::refjson::parse(lit.as_bytes(), crate::refjson::Mode::Strict) {
+        Ok(p) => match p.tree {
+            Tree::Num(n) => n,
+            _ => return,
+        },
+        Err(_) => return,
+    };
+    ctx.count("text_casts");
+    let d = lit.as_bytes();
+    let r = guard(|| (jsonb::as_number(d), jsonb::as_i64(d), jsonb::as_u64(d), jsonb::as_f64(d), jsonb::to_i64(d).ok(), jsonb::to_u64(d).ok(), jsonb::to_f64(d).ok(), jsonb::is_i64(d), jsonb::is_u64(d)));
+    match r {
+        Err(p) => ctx.panic_violation("as_number(text)", &p, &info),
+        Ok((num, bi, bu, bf, ti, tu, tf, isi, isu)) => {
+            let okn = matches!(&num, Some(x) if Num::from_lib(x).same_encoding(&n));
+            if !okn {
+                ctx.violation("as_number(text)/differs", || format!("{:?} expected {} ; {}", num, n.show(), info()));
+            }
+            let (ei, eu, ef) = (refops::as_i64(&n), refops::as_u64(&n), refops::as_f64(&n));
+            if bi != ei || ti != ei || isi != ei.is_some() {
+                ctx.violation("text-casts/i64-view", || format!("as_i64={:?} to_i64={:?} is_i64={} expected {:?} ; {}", bi, ti, isi, ei, info()));
+            }
+            if bu != eu || tu != eu || isu != eu.is_some() {
+                ctx.violation("text-casts/u64-view", || format!("as_u64={:?} to_u64={:?} is_u64={} expected {:?} ; {}", bu, tu, isu, eu, info()));
+            }
+            if bf.map(|x| x.to_bits()) != Some(ef.to_bits()) || tf.map(|x| x.to_bits()) != Some(ef.to_bits()) {
+                ctx.violation("text-casts/f64-view", || format!("as_f64={:?} to_f64={:?} expected {:?} ; {}", bf, tf, ef, info()));
+            }
+        }
+    }
+}
+
+/// the integer casts applied to a JSONB *string*: whatever syntax the cast admits, a value it
+/// hands back must be the number the string denotes, exactly
+fn string_casts(ctx: &mut Ctx, s: &str) {
+    let info = || format!("JSONB string {:?}", s);
+    let doc = refcodec::encode(&Tree::Str(s.to_string()));
+    ctx.count("string_casts");
+    let denotes: Option<Num> = {
+        let body = s.strip_prefix('+').unwrap_or(s);
+        match crate::refjson::parse(body.as_bytes(), crate::refjson::Mode::Strict) {
+            Ok(p) => match p.tree {
+                Tree::Num(n) if p.exact || n.int().is_some() => Some(n),
+                Tree::Num(n) => Some(n),
+                _ => None,
+            },
+            Err(_) => {
+                // leading zeros are fine for an integer cast ("007")
+                let digits = body.strip_prefix('-').unwrap_or(body);
+                if !digits.is_empty() && digits.len() < 30 && digits.bytes().all(|b| b.is_ascii_digit()) {
+                    digits.parse::<i128>().ok().and_then(|v| {
+                        let v = if body.starts_with('-') { -v } else { v };
+                        if v >= i64::MIN as i128 && v <= i64::MAX as i128 {
+                            Some(Num::I(v as i64))
+                        } else if v >= 0 && v <= u64::MAX as i128 {
+                            Some(Num::U(v as u64))
+                        } else {
+                            None
+                        }
+                    })
+                } else {
+                    None
+                }
+            }
+        }
+    };
+    match guard(|| (jsonb::to_i64(&doc).ok(), jsonb::to_u64(&doc).ok(), jsonb::as_i64(&doc), jsonb::as_u64(&doc), jsonb::as_f64(&doc))) {
+        Err(p) => ctx.panic_violation("to_i64(string)", &p, &info),
+        Ok((ti, tu, ai, au, af)) => {
+            if ai.is_some() || au.is_some() || af.is_some() {
+                ctx.violation("string-casts/as-view-of-a-string", || format!("as_i64={:?} as_u64={:?} as_f64={:?} ; {}", ai, au, af, info()));
+            }
+            if let Some(v) = ti {
+                let same = matches!(&denotes, Some(n) if refnum::cmp(n, &Num::I(v)) == Ordering::Equal);
+                if !same {
+                    ctx.violation("string-casts/to_i64-different-value", || format!("to_i64={} but the string denotes {:?} ; {}", v, denotes.map(|n| n.show()), info()));
+                }
+            }
+            if let Some(v) = tu {
+                let same = matches!(&denotes, Some(n) if refnum::cmp(n, &Num::U(v)) == Ordering::Equal);
+                if !same {
+                    ctx.violation("string-casts/to_u64-different-value", || format!("to_u64={} but the string denotes {:?} ; {}", v, denotes.map(|n| n.show()), info()));
+                }
+            }
+        }
+    }
+}
+
+fn literal(rng: &mut crate::prng::Rng) -> String {
+    let bases: [i128; 9] = [i64::MIN as i128, i64::MAX as i128, u64::MAX as i128, 0, 1_000_000_000_000_000_000, 10_000_000_000_000_000_000, -10_000_000_000_000_000_000, 1 << 53, -(1 << 53)];
+    match rng.below(6) {
+        0 | 1 => format!("{}", *rng.pick(&bases) + rng.range(-3, 3) as i128),
+        2 => {
+            // 17..21 random digits, either sign
+            let n = 17 + rng.below(5);
+            let mut s = String::new();
+            if rng.bool() {
+                s.push('-');
+            }
+            s.push((b'1' + rng.below(9) as u8) as char);
+            for _ in 1..n {
+                s.push((b'0' + rng.below(10) as u8) as char);
+            }
+            s
+        }
+        3 => format!("{}{}", *rng.pick(&bases) + rng.range(-3, 3) as i128, *rng.pick(&[".0", "e0", "E0", ".5", "e1", "e-1", ".00"])),
+        4 => format!("{}e{}", rng.range(-20, 20), rng.range(0, 25)),
+        _ => {
+            let st = crate::refjson::Style { ws: 0, esc: 0, numvar: true };
+            String::from_utf8(crate::refjson::to_text(&Tree::Num(gen::num(rng, false)), &st, rng, false)).unwrap()
+        }
+    }
+}
+
 fn order_pair(ctx: &mut Ctx, a: &Num, b: &Num) {
     let (la, lb) = (a.to_lib(), b.to_lib());
     let info = || format!("a={} b={}", a.show(), b.show());
@@ -340,6 +458,7 @@ pub fn run(ctx: &mut Ctx) {
         }
         ctx.exhaustive.insert("pool_pairs(boundary pool x boundary pool)".into(), !ctx.miri);
     }
+    let mon = super::routes::Monitor::new(super::routes::NUMBERS);
     let n = ctx.budget(5_000_000, 50_000_000);
     for i in 0..n {
         if !ctx.next_case() {
@@ -372,6 +491,21 @@ pub fn run(ctx: &mut Ctx) {
             _ => gen::num(&mut rng, true),
         };
         order_pair(ctx, &a, &b);
+        if i % 4 == 0 {
+            let lit = literal(&mut rng);
+            text_casts(ctx, &lit);
+            let st = match rng.below(4) {
+                0 => gen::string(&mut rng),
+                1 => format!("{}{}", if rng.bool() { "+" } else { "" }, lit),
+                _ => lit.clone(),
+            };
+            string_casts(ctx, &st);
+        }
+        if i % 16 == 1 && !ctx.miri {
+            let t = Tree::Num(a);
+            let args = super::routes::plain_args(&t, &mut rng);
+            mon.check(ctx, &t, &t, &args, &mut rng);
+        }
         if i % 64 == 0 {
             // batch of 48: a, relatives and pool members
             let mut batch = vec![a, b];
